@@ -77,6 +77,78 @@ func enduranceOracle(in enduranceIn) probe.Outcome {
 				}
 			}
 		}
+	case "sizes-multiple-of-4096":
+		// Messages whose authenticated part (header .. end of the ciphertext) is an exact multiple of 4096 octets - of 4096, 8192,
+		// 32768, 61440. How much padding a sender adds is its own business, so nonces of sixteen lengths (16 octets apart) are
+		// protected; with minimal padding one in sixteen hits the size. Every one is opened by the independent receiver and by the peer SA, an altered copy is refused, and a
+		// small message follows on the same SA objects (whatever the large one left behind must not disturb it).
+		for _, integ := range []int{0, 2} {
+			s := bridge.SuiteSel{Encr: 0, Integ: integ, Prf: 1}
+			k := fuzzKeysFor(s)
+			a, err := bridge.NewSA(s, *k)
+			if err != nil {
+				return probe.Fail("HARNESS: %v", err)
+			}
+			b, _ := bridge.NewSA(s, *k)
+			icv := s.Ref().Integ.OutLen
+			small := model.Message{Header: model.Header{ISPI: 3, RSPI: 4, Major: 2, Exchange: 37, Flags: 0x08}, Payloads: []model.Payload{{Kind: model.KNonce, Data: model.Bytes{9, 9, 9}}}}
+			hits := 0
+			for _, blocks := range []int{1, 2, 8, 15} {
+				for i := 1; i <= in.N; i++ {
+					// with minimal padding a nonce of 4096*blocks-53 octets gives the size; a sender that pads more reaches it from
+					// a nonce that is 16, 32, ... 240 octets shorter
+					L := 4096*blocks - 53 - 16*(i%16)
+					if i%16 == 1 {
+						L = 4096*blocks - 53 - (i/16)%16 // the other inner sizes that pad up to the same ciphertext
+					}
+					big := model.Message{Header: small.Header, Payloads: []model.Payload{{Kind: model.KNonce, Data: pat(L, byte(blocks))}}}
+					big.Header.MsgID, small.Header.MsgID = uint32(2*i), uint32(2*i+1)
+					asI := i%2 == 0
+					w, _, _, err := libProtect(big, a, asI, nil)
+					if err != nil {
+						return probe.Fail("protecting a %d-octet payload: %v", L, err)
+					}
+					aligned := (len(w)-icv)%4096 == 0
+					if aligned {
+						hits++
+					}
+					what := fmt.Sprintf("message of %d octets (authenticated part %d octets, a multiple of 4096: %v)", len(w), len(w)-icv, aligned)
+					if _, err := ref.Open(s.Ref(), k.Dir(asI), w); err != nil {
+						return probe.Fail("%s: independent receiver: %v", what, err)
+					}
+					got, err := libUnprotect(w, b, !asI, i%3 == 0)
+					if err != nil {
+						return probe.Fail("%s is refused by the peer SA: %v", what, err)
+					}
+					if d := model.Diff(big, got); d != "" {
+						return probe.Fail("%s: %s", what, d)
+					}
+					x := append([]byte(nil), w...)
+					x[20+i%4] ^= 0x10 // message id
+					if _, err := libUnprotect(x, b, !asI, false); err == nil {
+						return probe.Fail("%s with one bit of the header flipped is ACCEPTED", what)
+					}
+					x = append([]byte(nil), w...)
+					x[len(x)-icv-1-i%64] ^= 1
+					if _, err := libUnprotect(x, b, !asI, true); err == nil {
+						return probe.Fail("%s with one bit of the ciphertext flipped is ACCEPTED", what)
+					}
+					ws, _, _, err := libProtect(small, a, asI, nil)
+					if err != nil {
+						return probe.Fail("protecting a small message after a %s: %v", what, err)
+					}
+					if _, err := ref.Open(s.Ref(), k.Dir(asI), ws); err != nil {
+						return probe.Fail("small message protected right after a %s: independent receiver: %v", what, err)
+					}
+					if _, err := libUnprotect(ws, b, !asI, false); err != nil {
+						return probe.Fail("small message right after a %s is refused by the peer SA: %v", what, err)
+					}
+				}
+			}
+			if hits == 0 {
+				return probe.OK(false, "endurance:"+in.What, "no-aligned-size-drawn")
+			}
+		}
 	case "encrypt":
 		key := bytes.Repeat([]byte{0x6b}, 32)
 		c, err := c10New(2, key)
@@ -330,7 +402,7 @@ func enduranceOracle(in enduranceIn) probe.Outcome {
 // one check "endurance" per property that has such loops (registered at start-up, so that replay files find it)
 var enduranceChecks = func() map[string]*probe.Check[enduranceIn] {
 	m := map[string]*probe.Check[enduranceIn]{}
-	for _, prop := range []string{"C01", "C03", "C08", "C09", "C10", "C13", "C14", "C15", "C16", "C17"} {
+	for _, prop := range []string{"C01", "C02", "C03", "C06", "C08", "C09", "C10", "C13", "C14", "C15", "C16", "C17"} {
 		m[prop] = probe.Define(prop, "endurance", func(t *rapid.T) enduranceIn { panic("enumerated") }, enduranceOracle)
 	}
 	return m
